@@ -235,6 +235,14 @@ def search(ctx, boost=1, focus=()):
         q = {"seed": 0, "shape": shape, "radius": float(rng.integers(6, 14)),
              "shift": [float(np.round(rng.uniform(-10, 10), 2)), float(np.round(rng.uniform(-10, 10), 2))],
              "upsample": [int(v) for v in rng.permutation([int(rng.integers(2, 51)), int(rng.integers(2, 51)), 10, 25])]}
+        if k % 6 == 1:
+            # a frame exactly as large as the pattern's search window (2 * crop_size on both axes): crop and frame have the same shape
+            r_ = float(rng.integers(10, 23))
+            q["radius"] = r_
+            shape = [int(4 * r_), int(4 * r_)]
+            q["shape"] = shape
+            q["shift"] = [float(np.round(rng.uniform(-6, 6), 2)), float(np.round(rng.uniform(-6, 6), 2))]
+            ctx.count("frame_equals_window")
         if k % 2:
             cen = [shape[0] // 2 + int(np.round(q["shift"][0])), shape[1] // 2 + int(np.round(q["shift"][1]))]
             q["starts"] = [[cen[0] + int(rng.integers(-2, 3)), cen[1] + int(rng.integers(-2, 3))] for _ in range(int(rng.integers(3, 7)))]
